@@ -6,6 +6,8 @@ import (
 	"encoding/json"
 	"flag"
 	"fmt"
+	"go/printer"
+	"go/token"
 	"os"
 	"path/filepath"
 	"sort"
@@ -34,9 +36,10 @@ func main() {
 	replay := flag.String("replay", "", "replay file: re-run the rule of that violation and print its obligations")
 	list := flag.Bool("list", false, "list properties and rules")
 	manifest := flag.Bool("manifest", false, "print MANIFEST.json for the rules that are built")
-	writeBaseline := flag.Bool("write-baseline", false, "print the function inventory of -repo (checker/baseline_funcs.txt is this list for the pinned tree)")
+	writeBaseline := flag.Bool("write-baseline", false, "print the function inventory of -repo (checker/baseline_decls.txt is this list for the pinned tree)")
 	noEvidence := flag.Bool("no-evidence", false, "do not write evidence (used by the self-test on scratch copies)")
 	verbose := flag.Bool("v", false, "print every obligation")
+	dump := flag.String("dump", "", "print the body of this function (\"T.m\" or \"f\", package connect or the generator) as analysed, i.e. after helper inlining")
 	flag.Parse()
 
 	if *manifest {
@@ -49,8 +52,8 @@ func main() {
 			fmt.Fprintln(os.Stderr, err)
 			os.Exit(2)
 		}
-		fmt.Println("# functions of the pinned tree; functions outside this inventory are inlined into their callers before analysis")
-		for _, n := range prog.FuncInventory() {
+		fmt.Println("# declarations of the pinned tree (kind, name, type; local = defining expressions per function), see internal/core/baseline.go")
+		for _, n := range prog.DeclInventory() {
 			fmt.Println(n)
 		}
 		return
@@ -108,9 +111,9 @@ func main() {
 		configs = append(configs, core.LoadOptions{GOARCH: "386"}, core.LoadOptions{Tags: "verif"})
 	}
 
-	baseline, berr := core.LoadBaseline(filepath.Join(*verifDir, "checker", "baseline_funcs.txt"))
+	baseline, berr := core.LoadBaseline(filepath.Join(*verifDir, "checker", "baseline_decls.txt"))
 	if berr != nil {
-		fmt.Fprintf(os.Stderr, "warning: baseline_funcs.txt: %v (helper inlining disabled)\n", berr)
+		fmt.Fprintf(os.Stderr, "warning: baseline_decls.txt: %v (helper inlining disabled)\n", berr)
 		baseline = nil
 	}
 	for i := range configs {
@@ -137,10 +140,32 @@ func main() {
 		}
 		configsOK = append(configsOK, prog.Config)
 		if ci == 0 && len(prog.InlinedHelpers) > 0 {
+			_ = 0
 			fmt.Printf("  note: %d function(s) outside the baseline inventory were inlined into their callers before analysis: %s\n", len(prog.InlinedHelpers), strings.Join(prog.InlinedHelpers, ", "))
 		}
 		if ci == 0 {
 			stats = prog.Stats
+			if len(prog.Renamed) > 0 {
+				fmt.Printf("  note: %d declaration(s) renamed back to their inventory name before analysis: %s\n", len(prog.Renamed), strings.Join(prog.Renamed, ", "))
+			}
+			if len(prog.Substituted) > 0 {
+				fmt.Printf("  note: %d hoisted local(s) replaced by their defining expression before analysis: %s\n", len(prog.Substituted), strings.Join(prog.Substituted, ", "))
+			}
+			for _, n := range prog.Notes {
+				fmt.Printf("  note: %s\n", n)
+			}
+		}
+		if *dump != "" {
+			for _, pkg := range prog.All {
+				for _, fd := range prog.AllFuncDeclsRaw(pkg) {
+					if core.FuncName(fd) == *dump {
+						fmt.Printf("// %s.%s\n", pkg.PkgPath, *dump)
+						printer.Fprint(os.Stdout, token.NewFileSet(), fd.Body)
+						fmt.Println()
+					}
+				}
+			}
+			return
 		}
 		for _, rid := range prop.Rules {
 			if *onlyRule != "" && rid != *onlyRule {
